@@ -10,10 +10,33 @@ open Rpyc
 
 def verText (s : SendCfg) : Str := if s.includeVer then Gen.Vinegar.versionString else Gen.Vinegar.versionDenied
 
+/-- the text that travels in the traceback field: the formatted traceback when the sender allows it — the "unavailable"
+literal when the traceback module itself fails on this exception —, the "denied" marker otherwise -/
+def tbShown (s : SendCfg) (e : ExcRec) : Str :=
+  if s.includeTb then
+    match e.tbText with
+    | .ok t => t
+    | .error _ => Gen.Vinegar.tracebackUnavailable
+  else Gen.Vinegar.tracebackDenied
+
+/-- obligation on the source: formatting the traceback is guarded (a failure of the traceback module must not cost the
+exception its arguments) -/
+theorem gen_tbFormatGuarded : Gen.Vinegar.tbFormatGuarded = true := by decide
+
+theorem tbField_eq (s : SendCfg) (e : ExcRec) : tbField s e = .ok (.str (tbShown s e)) := by
+  unfold tbField tbShown
+  cases s.includeTb
+  · simp
+  · cases e.tbText <;> simp [gen_tbFormatGuarded]
+
+theorem dumpExc_ok (s : SendCfg) (e : ExcRec) (hnf : fastPath e = false) (hw : e.walkRaises = none) :
+    dumpExc s e = .ok (recordPayload s e (.str (tbShown s e))) := by
+  simp [dumpExc, hnf, tbField_eq, hw]
+
 /-- the object the receiver builds from a genuine record once the class is settled -/
 def received (s : SendCfg) (e : ExcRec) (cls : ClsRef) : ExcObj :=
   ⟨cls, walkArgs e e.dir,
-   (Gen.Vinegar.remoteTbAttr, tbField s e)
+   (Gen.Vinegar.remoteTbAttr, Val.str (tbShown s e))
      :: (sentAttrs e.dir ++ [(Gen.Vinegar.versionAttr, Val.str (verText s))]).reverse⟩
 
 /-- the receiver's class stores every attribute the sender sends, and the version attribute
@@ -29,7 +52,7 @@ theorem versionCheck_verText (s : SendCfg) (tb : Val) : versionCheck tb (.str (v
   · simpa using versionCheck_same tb
 
 theorem build_record (env : Env) (s : SendCfg) (e : ExcRec) (cls : ClsRef) (hw : Writable env cls e) :
-    build env cls (.tuple (walkArgs e e.dir)) (.tuple (walkAttrs e.dir ++ [versionPair s])) (tbField s e)
+    build env cls (.tuple (walkArgs e e.dir)) (.tuple (walkAttrs e.dir ++ [versionPair s])) (.str (tbShown s e))
       = .ok (received s e cls) := by
   have hlist : walkAttrs e.dir ++ [versionPair s]
       = (sentAttrs e.dir ++ [(Gen.Vinegar.versionAttr, Val.str (verText s))]).map pairOf := by
@@ -54,13 +77,11 @@ theorem isStopMarker_tuple (xs : List Val) : isStopMarker (.tuple xs) = false :=
 
 /-- loading what `dump` made of a record that did not take the fast path: straight to `instantiate` -/
 theorem loadExc_record (s : SendCfg) (r : RecvCfg) (env : Env) (e : ExcRec) (cls : ClsRef) (nn : Bool)
-    (hnf : fastPath e = false)
+    (tb : Val)
     (hres : resolveClass r env (.str e.cls.modname) (.str e.cls.name) = .ok (cls, nn)) :
-    loadExc r env (dumpExc s e)
+    loadExc r env (recordPayload s e tb)
       = instantiate env (importEvents r env (.str e.cls.modname)) cls nn (.tuple (walkArgs e e.dir))
-          (.tuple (walkAttrs e.dir ++ [versionPair s])) (tbField s e) := by
-  unfold dumpExc
-  simp only [hnf, Bool.false_eq_true, ↓reduceIte]
+          (.tuple (walkAttrs e.dir ++ [versionPair s])) tb := by
   unfold recordPayload loadExc
   simp only [isStopMarker_tuple, Bool.false_eq_true, ↓reduceIte, unpack4, iter, unpack2, loadRecord, hashable_all,
     Bool.not_true, Bool.and_false, hres]
@@ -271,7 +292,7 @@ theorem sent_full_nodup (s : SendCfg) (e : ExcRec) (h : (e.dir.map (·.name)).No
   cases hsk
 
 theorem received_get_tb (s : SendCfg) (e : ExcRec) (cls : ClsRef) :
-    (received s e cls).get Gen.Vinegar.remoteTbAttr = some (tbField s e) := by
+    (received s e cls).get Gen.Vinegar.remoteTbAttr = some (.str (tbShown s e)) := by
   simp [received, ExcObj.get, lookupAttr]
 
 theorem received_get_ver (s : SendCfg) (e : ExcRec) (cls : ClsRef) (h : (e.dir.map (·.name)).Nodup) :
@@ -310,5 +331,39 @@ theorem inModules_iff (r : RecvCfg) (env : Env) (m : Val) :
     inModules r env m = true ↔ (env.loaded m = true ∨ (r.importCustom = true ∧ env.importable m = true)) := by
   unfold inModules importAttempted
   cases env.loaded m <;> cases r.importCustom <;> cases env.importable m <;> simp
+
+/-! ### the fallback record of `_send_exception` -/
+
+theorem gen_fallbackExists : Gen.Vinegar.fallbackExists = true := by decide
+
+theorem boxExc_ok (s : SendCfg) (e : ExcRec) (p : Val) (bs : Bytes) (hd : dumpExc s e = .ok p)
+    (hb : Brine.dump p = .ok bs) : boxExc s e = .ok p := by
+  simp [boxExc, hd, hb]
+
+theorem boxExc_dump_raises (s : SendCfg) (e : ExcRec) (err : Err) (hd : dumpExc s e = .error err) :
+    boxExc s e = .ok (fallbackPayload e) := by
+  simp [boxExc, hd, gen_fallbackExists]
+
+theorem boxExc_wire_raises (s : SendCfg) (e : ExcRec) (p : Val) (err : Err) (hd : dumpExc s e = .ok p)
+    (hb : Brine.dump p = .error err) : boxExc s e = .ok (fallbackPayload e) := by
+  simp [boxExc, hd, hb, gen_fallbackExists]
+
+/-- the object built from the fallback record: the note as only argument, the fixed text as traceback, nothing else -/
+def fallbackObj (cls : ClsRef) : ExcObj :=
+  ⟨cls, [.str Gen.Vinegar.fallbackNote], [(Gen.Vinegar.remoteTbAttr, .str Gen.Vinegar.fallbackTb)]⟩
+
+theorem loadExc_fallback (r : RecvCfg) (env : Env) (e : ExcRec) (cls : ClsRef)
+    (hres : resolveClass r env (.str e.cls.modname) (.str e.cls.name) = .ok (cls, false)) :
+    loadExc r env (fallbackPayload e)
+      = ⟨importEvents r env (.str e.cls.modname) ++ [.new cls], .ok (.exc (fallbackObj cls))⟩ := by
+  have hv : versionCheck (.str Gen.Vinegar.fallbackTb) (.str Gen.Vinegar.loadVersionDefault)
+      = .ok (.str Gen.Vinegar.fallbackTb) := by
+    unfold versionCheck
+    have h : (Gen.Vinegar.loadVersionDefault == Gen.Vinegar.loadVersionCompare) = true := by decide
+    simp [h]
+  unfold fallbackPayload loadExc
+  simp only [isStopMarker_tuple, Bool.false_eq_true, ↓reduceIte, unpack4, iter, unpack2, loadRecord, hashable_all,
+    Bool.not_true, Bool.and_false, hres]
+  simp [instantiate, build, iter, assignAll, remoteVersion, ExcObj.get, lookupAttr, hv, fallbackObj]
 
 end Rpyc.Vinegar
